@@ -322,7 +322,7 @@ def correspondence(ctx):
 
     # ------------------------------------------------ jacobi_sum_clenshaw (float)
     kinds = ['scalar', '1d', '2d']
-    for rep_ in range(ctx.scale(1, 4)):
+    for rep_ in range(ctx.scale(5, 30)):
         for ci, (n, kind, pos) in enumerate(coef_cases(ctx, nmax)):
             s = coef_vector(rng, n, kind, pos)
             a, b = AB[(ci + rep_) % len(AB)]
@@ -376,7 +376,7 @@ def correspondence(ctx):
     J.recurrence_abc.cache_clear()
 
     # ------------------------------------------------ clenshaw_qbfs
-    for rep_ in range(ctx.scale(1, 3)):
+    for rep_ in range(ctx.scale(5, 24)):
         for ci, (n, kind, pos) in enumerate(coef_cases(ctx, nmax)):
             cs = coef_vector(rng, n, kind, pos)
             u = points(rng, kinds[ci % 3], 0.05, 0.98)
@@ -436,7 +436,7 @@ def correspondence(ctx):
 
     # ------------------------------------------------ compute_z_zprime_Q2d : total sag
     qkinds = ['cos', 'sin', 'mixed', 'holes', 'ragged', 'm1long', 'equal']
-    for ci in range(ctx.scale(140, 1200)):
+    for ci in range(ctx.scale(1000, 12000)):
         kind = qkinds[ci % len(qkinds)]
         cm0, ams, bms = q2d_content(rng, kind, ctx.scale(4, 5), ctx.scale(6, 8))
         u, t = float(rng.uniform(0.1, 0.95)), float(rng.uniform(0, 6.2))
@@ -463,7 +463,7 @@ def correspondence(ctx):
 
     # ------------------------------------------------ Q2d_nm_c_to_a_b
     pkinds = ['all', 'no-m0', 'cos-only', 'sin-only', 'm0-only', 'repeat', 'empty', 'single']
-    for ci in range(ctx.scale(160, 1500)):
+    for ci in range(ctx.scale(1200, 15000)):
         kind = pkinds[ci % len(pkinds)]
         k = int(rng.integers(1, 9))
         nms = []
@@ -513,7 +513,7 @@ def correspondence(ctx):
         add('f pack ' + str(len(nms)) + ''.join(f' {n} {m} {C.f2w(c)}' for (n, m), c in zip(nms, coefs)), chk)
 
     # ------------------------------------------------ sum_of_2d_modes
-    for ci in range(ctx.scale(40, 300)):
+    for ci in range(ctx.scale(300, 3000)):
         k = int(rng.integers(1, 7))
         shp = [(3, 4), (1, 5), (4, 1), (2, 2), (5,), (2, 3, 2)][ci % 6]
         modes = rng.uniform(-1, 1, (k, *shp))
@@ -589,10 +589,8 @@ def lstsq_cases(ctx):
     masks = ['none', 'circle', 'ragged', 'dropout', 'inf']
     shapes = [(7, 7), (8, 9), (9, 6)] if not ctx.thorough else [(7, 7), (8, 9), (9, 6), (10, 10), (6, 11)]
     for (basis, orders), mask, shape in itertools.product(bases, masks, shapes):
-        if len(out) >= ctx.scale(24, 100):
+        if len(out) >= ctx.scale(40, 100):
             break
-        if (len(out) + len(orders)) % 2 and not ctx.thorough and mask in ('inf',):
-            continue
         n = shape[0] * shape[1]
         drop = sorted(int(v) for v in rng.choice(n, size=n // 5, replace=False))
         out.append({'item': 'lstsq', 'basis': basis, 'orders': [list(o) for o in orders], 'mask': mask, 'shape': list(shape),
